@@ -388,7 +388,8 @@ class Polynomial(Vector):
             (a,b,c) = self.to_scalars(recursive=recursive)
             (x0,x1) = Scalar.solve_quadratic(a, b, c, recursive=recursive)
             x1 = x1.mask_where(x1 == x0)        # mask duplicated solutions
-            return Qube.stack(x0,x1).sort(axis=0)
+            roots = Qube.stack(x0,x1).sort(axis=0)
+            return self._with_root_derivs(roots, recursive)
 
         # Method for higher-order polynomials stolen from np.roots; see:
         #    https://github.com/numpy/numpy
@@ -468,19 +469,26 @@ class Polynomial(Vector):
             roots = Scalar(sorted_values, sorted_mask | duplicated)
             roots = roots.sort(axis=0)
 
-        # Deal with derivatives if necessary
-        #
+        return self._with_root_derivs(roots, recursive)
+
+    #===========================================================================
+    def _with_root_derivs(self, roots, recursive=True):
+        """The sorted roots with their derivatives filled in."""
+
         # Sum_j c[j] x**j = 0
         #
         # Sum_j dc[j]/dt x**j + Sum_j c[j] j x**(j-1) dx/dt = 0
         #
         # dx/dt = -Sum_j dc[j]/dt x**j / Sum_j c[j] j x**(j-1)
 
-        if recursive:
+        if recursive and self._derivs_:
+
+            # The sort can leave infinities underneath the mask
+            x = roots.mask_where(roots.mask, replace=0.)
+
+            slope = self.deriv(recursive=False).eval(x, recursive=False)
             for (key, value) in self._derivs_.items():
-                deriv = (-value.eval(roots, recursive=False) /
-                         self.deriv(recursive=False).eval(roots,
-                                                          recursive=False))
+                deriv = -value.eval(x, recursive=False) / slope
                 roots.insert_deriv(key, deriv)
 
         return roots
